@@ -54,7 +54,7 @@ keys = sorted(set().union(*[set(c) for c in comps]))
 res = [sum((-1 if i < nr else 1) * comps[i].get(k, 0) * xs[i] for i in range(len(comps))) for k in keys]
 feasible = all(r == 0 for r in res) and all(x > 0 for x in xs)
 try:
-    out = balance_stoichiometry(reac, prod, substances=subs, underdetermined=True)
+    out = balance_stoichiometry(reac, prod, substances=subs, underdetermined=True, **%(kw)s)
     refused = None
 except ValueError as e:
     refused = str(e)
@@ -79,18 +79,18 @@ class Spy(real):
         return real.__new__(real, *a, **k)
 sympy.MutableDenseMatrix = Spy
 try:
-    balance_stoichiometry(set(names[:nr]), set(names[nr:]), substances=subs, underdetermined=True)
+    balance_stoichiometry(set(names[:nr]), set(names[nr:]), substances=subs, underdetermined=True, **%(kw)s)
 except Exception as e:
-    print("raised", repr(e))
+    print("raised", repr(e)); seen.append("raised")
 finally:
     sympy.MutableDenseMatrix = real
 exp = [[(-1 if i < nr else 1) * comps[i].get(k, 0) for i in range(len(comps))] for k in keys]
 print("matrix", seen[0] if seen else None, "expected", exp)
-sys.exit(1 if (seen and seen[0] != exp) else 0)
+sys.exit(1 if (seen and seen[0] != exp) else 0)   # an exception before the matrix is built is a refusal of a placement that reaches the solver otherwise
 '''
 
 
-def task_shape(r, p, c):
+def task_shape(r, p, c, dup=False):
     import sympy
     from chempy import Substance, balance_stoichiometry
 
@@ -120,7 +120,7 @@ def task_shape(r, p, c):
 
         sympy.MutableDenseMatrix = Sentinel
         try:
-            return balance_stoichiometry(set(names[:r]), set(names[r:]), substances=subs, underdetermined=True)
+            return balance_stoichiometry(set(names[:r]), set(names[r:]), substances=subs, underdetermined=True, **({"allow_duplicates": True} if dup else {}))
         finally:
             sympy.MutableDenseMatrix = old
 
@@ -134,6 +134,8 @@ def task_shape(r, p, c):
             if rows is None or len(rows) != len(keys) or any(len(row) != n for row in rows):
                 return False
             return z3.And(*[eq_term(rows[ki][i], (-1 if i < r else 1) * comps[i][k]) for ki, k in enumerate(sorted(keys)) for i in range(n)])
+        if p_.kind == "exc" and not isinstance(p_.value, (Reached, ValueError)) and not wrapper_exc(p_.value):
+            return False  # e.g. NotImplementedError: the species are disjoint, nothing about duplicates applies
         if p_.kind == "exc" and isinstance(p_.value, ValueError) and "not among" in str(p_.value):
             if twin:
                 return False
@@ -154,11 +156,11 @@ def task_shape(r, p, c):
         xv = concretize(m, xs)
         if isinstance(pth.value, Reached):
             res["violations"].append(dict(key="matrix", desc="compositions %s (first %d are reactants): matrix handed to the solver is %s" % (cc, r, pth.value.rows),
-                                          replay_src=REPLAY_MATRIX % dict(comps=pyrepr(cc), nr=r)))
+                                          replay_src=REPLAY_MATRIX % dict(comps=pyrepr(cc), nr=r, kw=repr({"allow_duplicates": True} if dup else {}))))
             continue
         res["violations"].append(dict(key="precheck:%s" % pth.kind, soft=wrapper_exc(pth.value),
                                       desc="compositions %s (first %d are reactants): %r although x=%s balances" % (cc, r, pth.value, xv),
-                                      replay_src=REPLAY % dict(comps=pyrepr(cc), nr=r, xs=pyrepr(xv))))
+                                      replay_src=REPLAY % dict(comps=pyrepr(cc), nr=r, xs=pyrepr(xv), kw=repr({"allow_duplicates": True} if dup else {}))))
     res["status"] = "violation" if res["violations"] else ("inconclusive" if res["inconclusive"] else "discharged")
     return res
 
@@ -167,4 +169,7 @@ def tasks(tier, seed):
     shapes = [(1, 1, 2), (1, 2, 2), (2, 1, 2), (2, 2, 2), (1, 2, 3), (2, 1, 3), (1, 3, 2), (3, 1, 2), (2, 2, 3)]
     if tier == "thorough":
         shapes += [(1, 3, 3), (3, 1, 3), (2, 3, 2), (3, 2, 2), (2, 3, 3), (3, 2, 3), (1, 4, 2), (4, 1, 2), (3, 3, 2)]
-    return [dict(id="C02.precheck.r%dp%dc%d" % s, fn="task_shape", kwargs=dict(r=s[0], p=s[1], c=s[2]), timeout=1800) for s in shapes]
+    ts = [dict(id="C02.precheck.r%dp%dc%d" % s, fn="task_shape", kwargs=dict(r=s[0], p=s[1], c=s[2]), timeout=1800) for s in shapes]
+    # the same obligations with duplicate handling switched on (species are disjoint: nothing may change)
+    ts += [dict(id="C02.precheck.dup.r%dp%dc%d" % s, fn="task_shape", kwargs=dict(r=s[0], p=s[1], c=s[2], dup=True), timeout=1800) for s in shapes[:3]]
+    return ts
